@@ -203,6 +203,40 @@ func c12Heartbeats(r *Run, p *Peer, N int, tout, hbi time.Duration, answerAt *in
 		r.Sim.RunFor(tout + 100*time.Millisecond)
 		return t
 	}
+	if r.Ch.Choose(4, "reassociate-during-heartbeat") == 1 {
+		// the control plane repeats its Association Setup (restart on the same
+		// address, or a duplicated datagram) while a Heartbeat Request of the agent is
+		// outstanding, and answers that heartbeat afterwards: the association must go on
+		before := len(*order)
+		*answerAt = 0 // sit on the next heartbeat
+		r.Sim.RunUntil(func() bool { return len(*order) > before }, r.until(hbi+time.Duration(N+2)*tout+time.Second))
+		if len(*order) > before && r.AgentAlive() {
+			t := txs[(*order)[before]]
+			r.Sim.RunFor(time.Duration(r.Ch.Choose(int(tout/time.Millisecond)/2+1, "reassoc-after-ms")) * time.Millisecond)
+			as := p.Associate()
+			*answerAt = -1
+			r.Sim.RunFor(time.Duration(r.Ch.Choose(50, "late-ms")) * time.Millisecond)
+			p.SendMsg(message.NewHeartbeatResponse(t.seq, ie.NewRecoveryTimeStamp(p.TS)))
+			r.Fault("late-heartbeat-answer-after-reassociation")
+			r.Skel("reassoc-during-hb")
+			r.Op("Association Setup repeated while heartbeat seq=%d was outstanding (answered: %v), heartbeat answered afterwards", t.seq, as != nil)
+			r.Sim.RunFor(tout + 100*time.Millisecond)
+			if as != nil {
+				if p.Heartbeat() == nil && r.AgentAlive() {
+					r.Violate("C12", "association-lost-although-answered", "after a repeated Association Setup and the late answer to heartbeat seq=%d the association no longer answers heartbeats\n%s", t.seq, strings.Join(r.Sim.BlockedTable(), "\n"))
+					return
+				}
+				// let a full heartbeat cycle of the new monitor pass: the peer must not be declared dead
+				delBefore := countDeletes(r)
+				r.Sim.RunFor(hbi + time.Duration(N+2)*tout)
+				if len(p.Sessions) > 0 && countDeletes(r) > delBefore {
+					r.Violate("C12", "sessions-removed-although-answered", "sessions were removed from the datapath although every heartbeat was answered (repeated Association Setup during an outstanding heartbeat)")
+					return
+				}
+			}
+		}
+		*answerAt = -1
+	}
 	for _, k := range ks {
 		variant := []string{"", "", "dup", "wrongseq", "edge"}[r.Ch.Choose(5, "variant")]
 		*atEdge = variant == "edge" && k <= N
@@ -361,12 +395,23 @@ func c12PeerHeartbeats(r *Run, p *Peer, hbi time.Duration, txs map[string]*txRec
 		return true
 	}
 	// before association (the first datagram creates the connection)
-	nb := r.Ch.Choose(3, "nbefore")
+	nb := r.Ch.Choose(4, "nbefore")
+	many := nb == 3
+	if many {
+		// a peer that keeps probing for a long time before it associates (its
+		// set-up was refused earlier, or the agent was restarted under it)
+		nb = 95 + r.Ch.Choose(40, "nbefore-many")
+		r.Probe("many-heartbeats-before-association")
+	}
 	for i := 0; i < nb; i++ {
 		if !hb("before association") {
 			return
 		}
-		r.Sim.RunFor(time.Duration(r.Ch.Choose(3000, "gap")) * time.Millisecond)
+		if many {
+			r.Sim.RunFor(time.Duration(1+r.Ch.Choose(20, "gap-ms")) * time.Millisecond)
+		} else {
+			r.Sim.RunFor(time.Duration(r.Ch.Choose(3000, "gap")) * time.Millisecond)
+		}
 	}
 	as := p.Associate()
 	if as == nil {
